@@ -4,7 +4,7 @@ CONSTANTS
   LeaveFix = TRUE
   MaxResets = 1
   Faults = TRUE
-  MaxProcs = 1
+  MaxProcs = 0
 PROPERTY Answered
 PROPERTY FaultLeadsToFailure
 PROPERTY StopLeadsToStopped
